@@ -1,5 +1,5 @@
 (* C04 -- Inbound stream is reassembled into the exact messages sent, per connection. *)
-From SF Require Import Bytes Frame Frame_proofs.
+From SF Require Import Bytes Frame Frame_proofs Frame_drain.
 
 (* Framing. For every list of well-formed messages (each a sequence of delimiter-terminated
    segments of which exactly the last starts with "10=" -- values may contain "10=" anywhere
@@ -40,3 +40,34 @@ Theorem C04_connections :
     Forall2 pipe_inv sents (fold_left (fun ps cm => conns_step ps (fst cm) (snd cm)) sched ps).
 Proof. exact conns_run_inv. Qed.
 Print Assumptions C04_connections.
+
+(* End of a connection, the reader. The stream may end (the peer closes, the connection breaks) inside
+   a message -- complete segments none of which opens the trailer, then bytes without a delimiter,
+   possibly none: for every way of cutting the stream into reads, exactly the messages that arrived
+   complete have been delivered, the unfinished one has not. *)
+Theorem C04_complete_before_eof :
+  forall (msgs : list (list bytes * bytes)) segs partial (chunks : list bytes),
+    Forall (fun m => wf_message (fst m) (snd m)) msgs ->
+    unfinished segs partial ->
+    concat chunks = concat (map (fun m => concat (fst m) ++ snd m) msgs) ++ concat segs ++ partial ->
+    deliver chunks = map (fun m => concat (fst m) ++ snd m) msgs.
+Proof. exact deliver_exact_then_eof. Qed.
+Print Assumptions C04_complete_before_eof.
+
+(* End of a connection, the pipeline. Once nothing is left to hand in and nothing is in flight the
+   consumer holds exactly what was sent ... *)
+Theorem C04_quiescent_complete :
+  forall sent p, pipe_inv sent p -> quiescent p -> p_done p = sent.
+Proof. exact quiescent_complete. Qed.
+Print Assumptions C04_quiescent_complete.
+
+(* ... and that point can be reached from every state: whatever schedule has run so far, there is a
+   continuation after which the handler has been handed exactly what was sent. No message that
+   entered the pipeline before the end of the connection can be wedged in a channel; an
+   implementation that stops the handler while messages are in flight loses what the model delivers. *)
+Theorem C04_nothing_wedged :
+  forall sent sched p,
+    pipe_inv sent p -> p_stages p <> nil ->
+    exists more, p_done (fold_left pipe_step (sched ++ more) p) = sent.
+Proof. exact everything_sent_can_be_delivered. Qed.
+Print Assumptions C04_nothing_wedged.
